@@ -42,8 +42,10 @@ def changed_orig_lines(before: str, after: str):
         if tag == "replace":
             new_for[i1 + 1] = "\n".join(b[j1:j2])
         if tag == "insert":
-            # attribute an insertion to the line before it (inside a part: an added statement)
+            # attribute an insertion to the line before it (inside a copy: an added statement or method)
             new_for.setdefault(("ins", i1), "\n".join(b[j1:j2]))
+            if i1 >= 1:
+                changed.add(-i1)  # negative = "something was inserted after original line i1"
     inserts = {k[1]: v for k, v in new_for.items() if isinstance(k, tuple)}
     return changed, {k: v for k, v in new_for.items() if not isinstance(k, tuple)}, inserts
 
@@ -68,6 +70,8 @@ def part_text(before, after, ranges, p):
 
 
 def part_of(line, ranges):
+    if line < 0:  # insertion after original line -line: belongs to the copy holding that line, unless it is its last line + module level
+        line = -line
     for i, a, b in ranges:
         if a <= line <= b:
             return i
@@ -115,9 +119,9 @@ def with_decoys(doc, decoys, tool, rel):
                 e = copy.deepcopy(real)
                 e["component"] = "src/elsewhere.py"
                 doc["issues"].append(e)
-            elif d == "closed" and real:
+            elif d.startswith("closed") and real:
                 e = copy.deepcopy(real)
-                e["status"] = "RESOLVED"
+                e["status"] = {"closed": "RESOLVED", "closed-reviewed": "REVIEWED", "closed-fixed": "FIXED", "closed-closed": "CLOSED"}[d]
                 doc["issues"].append(e)
             elif d == "foreign-rule":
                 doc["issues"].append(base)
@@ -182,13 +186,13 @@ def sast_case(draw, cid, fixtures):
     for _ in range(ncopies):
         fx = draw(st.sampled_from(fixtures))
         ops = draw(st.lists(st.one_of(st.tuples(st.just("wrap"), st.sampled_from(["def", "def", "method", "nested", "if", "try", "for", "with", "async"])).map(list), st.just(["tabs"])), max_size=2, unique_by=repr))
-        parts.append({"code": fx["code"], "results": fx["results"], "ops": ops})
+        parts.append({"code": fx["code"], "results": fx["results"], "ops": ops, **({"base": fx["base"]} if fx.get("base") else {})})
     fops = draw(st.lists(st.one_of(st.tuples(st.just("prepend"), st.integers(1, 5), st.sampled_from(["comment", "blank", "docstring"])).map(list), st.tuples(st.just("eol"), st.just("crlf")).map(list), st.just(["nofinalnl"])), max_size=2, unique_by=lambda o: o[0]))
     return {
         "codemod": cid,
         "program": {"codemod": cid, "parts": parts, "file_ops": fops},
         "subset_mask": draw(st.lists(st.booleans(), min_size=4, max_size=4)),
-        "decoys": draw(st.lists(st.sampled_from(["foreign-rule", "other-file", "closed", "foreign-tool"]), max_size=2, unique=True)),
+        "decoys": draw(st.lists(st.sampled_from(["foreign-rule", "other-file", "closed", "closed-reviewed", "closed-fixed", "closed-closed", "foreign-tool"]), max_size=2, unique=True)),
         "empty_doc": draw(st.integers(0, 9)) == 0,
     }
 
@@ -223,6 +227,20 @@ def eval_case(case, stats=None, all_subsets=False):
     ch_full, new_full, _ = changed_orig_lines(before, after_full)
     acted = sorted({part_of(l, ranges) for l in ch_full} - {None})
     dropped = [p for p in parts_present if p not in acted]
+    # a copy whose finding was moved to a continuation line of the same call (DefectDojo: line-only matching inside the
+    # node's range) must be acted on whenever the one-line original is acted on in the same context
+    for p in dropped:
+        part = program["parts"][p]
+        if part.get("base"):
+            prog_b = copy.deepcopy(program)
+            prog_b["parts"][p] = {"code": part["base"]["code"], "results": part["base"]["results"], "ops": part["ops"]}
+            rd_b, full_b = render_with_subset(prog_b, set(parts_present), [])
+            with runner.scratch("c06b") as rb:
+                obs_b = run_doc(cid, rd_b, Path(rb))
+            if obs_b.res.exit == 0 and obs_b.files[0].after is not None:
+                chb, _, _ = changed_orig_lines(obs_b.files[0].before.decode("utf-8"), obs_b.files[0].after.decode("utf-8"))
+                if p in {part_of(l, full_b["part_ranges"]) for l in chb}:
+                    st_.violation(cid, "finding-on-continuation-line-of-the-call-not-acted-on", {"case": case}, json.dumps({"part": p, "before": before, "document": rd_all["results"]})[:6000], features=feats)
     st_.labels["copies-total"] += len(parts_present)
     st_.labels["copies-not-acted-on-in-calibration"] += len(dropped)
     if len(parts_present) == 1 and not program["parts"][0]["ops"] and dropped:
@@ -322,12 +340,52 @@ def eval_case(case, stats=None, all_subsets=False):
     return st_.violations[v0:]
 
 
+def dd_multiline_variants(fixtures):
+    """DefectDojo reports a line only and a finding matches when that line lies inside the node's line range: for
+    each fixture whose finding sits on a one-line call, add a variant with the call split over two lines and the
+    finding moved to the continuation line."""
+    import ast
+
+    out = []
+    for fx in fixtures:
+        doc = fx["results"]
+        res = doc.get("results") or []
+        if len(res) != 1:
+            continue
+        L = res[0]["line"]
+        lines = fx["code"].splitlines(keepends=True)
+        if not (1 <= L <= len(lines)):
+            continue
+        try:
+            tree = ast.parse(fx["code"])
+        except SyntaxError:
+            continue
+        calls = [n for n in ast.walk(tree) if isinstance(n, ast.Call) and n.lineno == L == n.end_lineno and (n.args or n.keywords)]
+        if not calls:
+            continue
+        c = max(calls, key=lambda n: n.end_col_offset - n.col_offset)
+        first = (c.args + [k.value for k in c.keywords])
+        first_col = min([a.col_offset for a in c.args] + [k.value.col_offset - (len(k.arg) + 1 if k.arg else 2) for k in c.keywords])
+        line = lines[L - 1]
+        indent = line[: len(line) - len(line.lstrip())]
+        new = line[:first_col] + "\n" + indent + "        " + line[first_col:]
+        code2 = "".join(lines[: L - 1]) + new + "".join(lines[L:])
+        try:
+            ast.parse(code2)
+        except SyntaxError:
+            continue
+        doc2 = copy.deepcopy(doc)
+        doc2["results"][0]["line"] = L + 1
+        out.append({"code": code2, "results": doc2, "variant": "multiline-finding-on-continuation-line", "base": {"code": fx["code"], "results": fx["results"]}})
+    return out
+
+
 def sast_ids():
     h = harvest.harvest()
     return [cid for cid, k in engine.all_codemods() if k == "sast" and h.get(cid, {}).get("sast")]
 
 
-BUDGET = {"quick": {"n": 5, "all_subsets": 0}, "thorough": {"n": 45, "all_subsets": 6}}
+BUDGET = {"quick": {"n": 10, "all_subsets": 1}, "thorough": {"n": 60, "all_subsets": 8}}
 
 
 def shards(tier, seed):
@@ -343,7 +401,10 @@ def run_shard(spec):
     stats = core.Stats()
     h = harvest.harvest()
     for cid in spec["codemods"]:
-        fixtures = h[cid]["sast"]
+        fixtures = list(h[cid]["sast"])
+        if cid.startswith("defectdojo:"):
+            fixtures = fixtures + dd_multiline_variants(fixtures)
+            stats.labels["defectdojo-multiline-variants"] += len(fixtures) - len(h[cid]["sast"])
         left = [spec["all_subsets"]]
 
         def fn(c, cid=cid):
